@@ -92,3 +92,91 @@ func VerifC06RawBlock() {
 		verifAssert(c.Data.Rows() == b.Rows, "rows-consistent")
 	}
 }
+
+// VerifC16LowCardinalityWidths: one LowCardinality column object through histories that mix
+// blocks whose key width the server chose (UInt8/16/32/64 keys are all legal for a small
+// dictionary) with the column's own Prepare/encode (which picks the width from the dictionary
+// size), Reset and appends: after every step the column holds exactly the model's values, and
+// what it encodes reads back as them.
+func VerifC16LowCardinalityWidths() {
+	version := 54460
+	c := new(ColUInt8).LowCardinality()
+	var model []uint8
+	serverBlock := func() ([]uint8, []byte) {
+		rows := verifIntRange("k", 1, 2)
+		keyw := verifChoice("keywidth", 4)
+		nd := 2
+		dict := verifBytes("dict", nd)
+		var w refBuf
+		w.vint(1)
+		w.vint(rows)
+		w.str("c")
+		w.str("LowCardinality(UInt8)")
+		w.u8(0)
+		w.u64(1)                           // key serialization version
+		w.u64(uint64(keyw) | 1<<9 | 1<<10) // key type, additional keys, update dictionary
+		w.u64(uint64(nd))
+		w.b = append(w.b, dict...)
+		w.u64(uint64(rows))
+		vals := make([]uint8, rows)
+		for i := 0; i < rows; i++ {
+			k := verifU8("key")
+			verifAssume(k <= 1)
+			vals[i] = dict[0] ^ ((dict[0] ^ dict[1]) & (0 - k)) // dict[k], branch-free
+			for j := 0; j < 1<<keyw; j++ {
+				if j == 0 {
+					w.u8(k)
+				} else {
+					w.u8(0)
+				}
+			}
+		}
+		return vals, w.b
+	}
+	same := func(label string) {
+		eq := c.Rows() == len(model)
+		for i := 0; i < len(model) && i < c.Rows(); i++ {
+			eq = vAnd(eq, c.Row(i) == model[i])
+		}
+		verifAssert(eq, label)
+	}
+	check := func() {
+		var b Buffer
+		blk := Block{Columns: 1, Rows: len(model)}
+		err := blk.EncodeRawBlock(&b, version, []InputColumn{{Name: "c", Data: c}})
+		verifAssert(err == nil, "widths-encode-ok")
+		fresh := new(ColUInt8).LowCardinality()
+		var d Block
+		err = d.DecodeRawBlock(NewReader(bytes.NewReader(b.Buf)), version, Results{{Name: "c", Data: fresh}})
+		verifAssert(err == nil, "widths-readback-ok")
+		eq := fresh.Rows() == len(model)
+		for i := 0; i < len(model) && i < fresh.Rows(); i++ {
+			eq = vAnd(eq, fresh.Row(i) == model[i])
+		}
+		verifAssert(eq, "widths-encoded==model")
+	}
+	steps := verifIntRange("steps", 1, verifParam("maxsteps", 4))
+	for s := 0; s < steps; s++ {
+		switch verifChoice("step", 4) {
+		case 0: // a block from the server into the used column
+			vals, data := serverBlock()
+			var d Block
+			err := d.DecodeRawBlock(NewReader(bytes.NewReader(data)), version, Results{{Name: "c", Data: c}})
+			verifAssert(err == nil, "widths-decode-ok")
+			model = vals
+			same("widths-decoded==block")
+		case 1: // relay: encode what the column holds
+			check()
+		case 2:
+			c.Reset()
+			model = nil
+			same("widths-empty-after-reset")
+		case 3:
+			v := verifU8("v")
+			c.Append(v)
+			model = append(model, v)
+		}
+	}
+	check()
+	verifObserveU64("rows", uint64(len(model)))
+}
